@@ -23,6 +23,10 @@ func vRunCase7(t *testing.T, c vCase) (msg string) {
 		m := mk(33, 'm')
 		enc := append(make([]byte, 0, 40), vSec1(g, true)...)
 		scb := append(make([]byte, 0, 40), vPad32(big.NewInt(77))...)
+		// operations whose special cases may touch shared scratch state are run once sequentially first (identity: inversion of 0)
+		idEnc := NewElement().Encode()
+		_ = NewElement().EncodeUncompressed()
+		sharedID := vElementOf(vInf(), big.NewInt(5))
 		type res struct{ a, b, c, d, e []byte }
 		const workers = 4
 		out := make([]res, workers)
@@ -51,6 +55,9 @@ func vRunCase7(t *testing.T, c vCase) (msg string) {
 				_ = s.CSelect(1, sharedSc, sharedSc)
 				r.d = append(Order(), NewElement().Base().Encode()...)
 				r.d = append(r.d, sharedEl.Copy().Encode()...)
+				r.d = append(r.d, sharedID.Encode()...)
+				r.d = append(r.d, NewElement().Set(sharedEl).Encode()...)
+				r.d = append(r.d, idEnc...)
 				r.d = append(r.d, sharedSc.Copy().Encode()...)
 				bits := sharedSc.Bits()
 				r.e = bits[:]
@@ -59,6 +66,14 @@ func vRunCase7(t *testing.T, c vCase) (msg string) {
 			}(w)
 		}
 		wg.Wait()
+		if !bytes.Equal(out[0].b[:33], func() []byte {
+			e := NewElement()
+			_ = e.Decode(enc)
+			e.Add(sharedEl).Subtract(sharedEl).Multiply(sharedSc).Double().Negate()
+			return e.Encode()
+		}()) {
+			return "a concurrent caller obtained a result different from the sequential one"
+		}
 		for w := 1; w < workers; w++ {
 			if !bytes.Equal(out[w].a, out[0].a) || !bytes.Equal(out[w].b, out[0].b) || !bytes.Equal(out[w].c, out[0].c) || !bytes.Equal(out[w].d, out[0].d) || !bytes.Equal(out[w].e, out[0].e) {
 				return "concurrent callers sharing read-only arguments obtained different results"
